@@ -145,10 +145,11 @@ macro_rules! fmt_invalid_digit {
             if is_suffix && $is_end && $iter.is_buffer_empty() {
                 // Break out of the loop, we've finished parsing.
                 break;
-            } else if !$iter.is_buffer_empty() {
+            } else if is_suffix && !$iter.is_buffer_empty() {
                 // Haven't finished parsing, so we're going to call
                 // `invalid_digit!`. Need to ensure we include the
-                // base suffix in that.
+                // base suffix in that (and only a base suffix: any
+                // other byte is where the number ends).
 
                 // SAFETY: safe since the iterator is not empty, as checked
                 // in `$iter.is_buffer_empty()`. Adding in the check hopefully
